@@ -322,8 +322,16 @@ RULE = ("model: NoPanicAtEnd, CleanAtEnd, NoFuel, Agreement on every Gen.tla pro
         "the evaluation stage or is rejected with a diagnostic after tokenizing")
 
 
+def text_replay(h, case):
+    x = pipeline(h, case["text"])
+    x["text"] = case["text"]
+    return x
+
+
 def main(tier, replay=None):
     t0 = time.time()
+    if replay:
+        return c01.do_replay(PID, replay, work_gen, text_replay=text_replay)
     fams = QUICK if tier == "quick" else THOROUGH
     sd = C.seed()
 
